@@ -202,7 +202,7 @@ ParallelInit(int_t n, pxgstrf_relax_t *pxgstrf_relax,
 #endif
 
 #ifdef SLU_MT_VERIF
-    SLU_MT_VERIF_EVENT(SLUV_PARINIT_END, -1, n, 0, 0, pxgstrf_shared);
+    SLU_MT_VERIF_EVENT(SLUV_PARINIT_END, -1, n, etree, 0, pxgstrf_shared);
 #endif
     return 0;
 } /* ParallelInit */
